@@ -200,7 +200,7 @@ pub fn cfg_strategy() -> impl Strategy<Value = DevCfg> {
         let front = if small { [FrontKind::NbBuf64, FrontKind::AsyncBuf255, FrontKind::AsyncBuf64, FrontKind::NbBuf255][(ri + b) % 4] } else { [FrontKind::Nb, FrontKind::Async, FrontKind::AsyncClassC][fk] };
         // ... and one in eight the crate's default downlink queue of depth 1 instead of the harness's 4
         let q1 = (ri + fk + b) % 8 == 5;
-        let front = if q1 { [FrontKind::NbQ1, FrontKind::AsyncQ1][(ri + b) % 2] } else { front };
+        let front = if q1 { [FrontKind::NbQ1, FrontKind::AsyncQ1, FrontKind::AsyncSeeded][(ri + b) % 3] } else { front };
         DevCfg { region, join_bias: if region.fixed() { bias } else { None }, front, board: if small || q1 { (14, 0) } else { BOARDS[b] } }
     })
 }
@@ -219,7 +219,7 @@ pub fn meddle_pattern(seed: u64) -> u32 {
 pub fn history_strategy(max_steps: usize) -> impl Strategy<Value = History> {
     (cfg_strategy(), any::<bool>(), any::<u64>(), rng_script_strategy(), (any::<bool>(), snr_strategy())).prop_flat_map(move |(cfg, otaa, seed, script, (nb_async, snr))| {
         let reg = Reg::from_name(cfg.region.name()).unwrap();
-        let class_c = matches!(cfg.front, FrontKind::AsyncClassC | FrontKind::AsyncQ1);
+        let class_c = matches!(cfg.front, FrontKind::AsyncClassC | FrontKind::AsyncQ1 | FrontKind::AsyncSeeded);
         let first = if otaa { join_accept_strategy(reg, true).prop_map(|r| vec![Step::Join(RxPlan::rx1(r))]).boxed() } else { Just(vec![]).boxed() };
         (first, proptest::collection::vec(step_strategy(reg, class_c, true), 1..=max_steps)).prop_map(move |(mut pre, steps)| {
             pre.extend(steps);
